@@ -132,6 +132,14 @@ func (w *world) gpgChecks(outs []produced) {
 					c.Outcome("gpg refuses a legacy algorithm (tallied only)")
 					return
 				}
+				// a failure must be reproducible: gpg and its agent are external processes on a shared
+				// machine; the same file is handed to gpg alone up to three more times
+				for try := 0; try < 3; try++ {
+					if w.gpgDecryptAlone(p, files[pos+n-1], b.pass) {
+						c.Outcome("gpg accepts package output: " + p.s.op + " (on retry; first attempt failed inside a batch)")
+						return
+					}
+				}
 				c.Violation("GnuPG does not accept a message produced by "+p.s.op, map[string]any{"case": p.s.String(), "decryption_ok": s.dec, "goodsig": s.good, "badsig": s.bad,
 					"output_matches": same, "aborted": aborted, "stderr": string(clip(serr, 600)), "message_hex": fmt.Sprintf("%x", clip(p.out, 300))})
 			}
@@ -180,7 +188,33 @@ func (w *world) gpgChecks(outs []produced) {
 			c.Outcome("gpg refuses a legacy algorithm (tallied only)")
 			return
 		}
+		for try := 0; try < 3; try++ {
+			o2, _, _ := g.Run(nil, "--status-fd", "1", "--verify", sig, doc)
+			if strings.Contains(string(o2), "[GNUPG:] GOODSIG") && !strings.Contains(string(o2), "BADSIG") {
+				c.Outcome("gpg accepts package output: " + p.s.op + " (on retry)")
+				return
+			}
+		}
 		c.Violation("GnuPG does not verify a detached signature produced by "+p.s.op, map[string]any{"case": p.s.String(), "status": string(clip(out, 400)), "stderr": string(clip(serr, 400)), "sig": vf.Hex8(p.out)})
 	})
 	c.Add("gpg_checked_outputs", int64(len(outs)))
+}
+
+// gpgDecryptAlone hands one file to a gpg process of its own and applies the same acceptance rule.
+func (w *world) gpgDecryptAlone(p produced, file, pass string) bool {
+	outFile := strings.TrimSuffix(file, ".gpg")
+	os.Remove(outFile)
+	out, _, _ := w.gpg.Run(nil, "--status-fd", "1", "--passphrase", pass, "--decrypt-files", file)
+	st := string(out)
+	data, err := os.ReadFile(outFile)
+	if err != nil {
+		return false
+	}
+	same := bytes.Equal(data, p.s.msg)
+	if h := hintsOf(p.s.hints); h == nil || !h.IsBinary {
+		same = bytes.Equal(bytes.ReplaceAll(data, []byte("\r"), nil), bytes.ReplaceAll(p.s.msg, []byte("\r"), nil))
+	}
+	enc := p.s.op != "sign"
+	return same && (!enc || strings.Contains(st, "[GNUPG:] DECRYPTION_OKAY")) && (p.s.signer == "" || strings.Contains(st, "[GNUPG:] GOODSIG")) &&
+		!strings.Contains(st, "BADSIG") && !strings.Contains(st, "DECRYPTION_FAILED")
 }
